@@ -255,6 +255,12 @@ class C06(PropCheck):
     def cases_file(self, items):
         return cases_file(items)
 
+    def replay(self, payload):
+        # accepts a driver replay file ({"case": ...}) or a corpus file (the case itself)
+        if "case" not in payload and "ops" in payload:
+            payload = dict(case=payload)
+        return super().replay(payload)
+
     def nontrivial_key(self, case, run):
         if run.get("trivial") or run.get("n_pulses", 0) < 1:
             return None
